@@ -218,7 +218,7 @@ func (r *Report) finish(verifDir string, seed int, start time.Time, st runStats,
 	var lines []string
 	for _, o := range r.Obligs {
 		if o.NonTrivial {
-			distinct[o.Rule+"|"+o.Key] = true
+			distinct[o.Rule+"|"+o.Key+"|"+o.Config] = true
 		}
 		switch o.Verdict {
 		case Discharged:
